@@ -245,6 +245,8 @@ func runRingOps(c *eng.Ctx, cfg pcfg, lo, hi int) {
 				continue
 			}
 			r0 := canon(o1)
+			// the rows of the output polynomial must still be the caller's (p3.Coeffs[i] = p1.Coeffs[i] would share them)
+			t.independentAny(api, where("fresh"), []any{&o1}, ins)
 			if row.noAli {
 				continue
 			}
@@ -373,6 +375,7 @@ func runRingMapDim(c *eng.Ctx, cfg pcfg) {
 				out = randPoly(rL.AtLevel(v.ll), rnd)
 			}
 			lo := min(v.ls, v.ll)
+			t.out(&out)
 			return []named{{"polSmall", &in}}, func() (string, error) {
 				ring.MapSmallDimensionToLargerDimensionNTT(in, out)
 				// (only the rows of the common levels are outputs)
